@@ -658,4 +658,59 @@ theorem resolveIterativelyN_switch_lockstep (H : Nat → Bool) (st : Static) (no
         obtain ⟨g2, gc2, k32⟩ := inv k d2 rep2 fin hl
         exact finish_sim H st nodes d0 f fs k d2 rep2 fin g2 gc2 k32
 
+/-- **whenever the optimising assembler succeeds, so does the other, with the same values** (budget at
+    least two).  In the one case where the two iterations do not run in lockstep — the optimised
+    first pass is stable, the unoptimised one is not — the optimised assembler confirms its state at
+    once; that state is a fixed point, which the other assembler reaches one pass later and keeps. -/
+theorem resolveIterativelyN_switch_success (H : Nat → Bool) (st : Static) (nodes : List AstNode) (d0 : Defs)
+    (f : FrontOK st nodes d0) (fs : FrontOKS st nodes d0 H) (ho : st.opts.optStatic = true) (hwf : NoClash nodes) (m : Nat)
+    (k : Nat) (d : Defs) (rep : List String) (h : resolveIterativelyN st nodes (m + 2) d0 = .ok (k, d, rep)) :
+    ∃ k' rep', resolveIterativelyN (st.withStatic false) nodes (m + 2) (d0.unfS H) = .ok (k', d.unfS H, rep') := by
+  by_cases hagree : ∀ d1 r1, resolveOnce st nodes true false d0 = .ok (d1, true, r1) →
+      resolveOnce (st.withStatic false) nodes true false (d0.unfS H) = .ok (d1.unfS H, true, r1)
+  · rw [resolveIterativelyN_switch_lockstep H st nodes d0 f fs ho m hagree, h]
+    exact ⟨k, rep, rfl⟩
+  · have hex : ∃ d1 r1, resolveOnce st nodes true false d0 = .ok (d1, true, r1) ∧
+        ¬ resolveOnce (st.withStatic false) nodes true false (d0.unfS H) = .ok (d1.unfS H, true, r1) := by
+      refine Classical.byContradiction fun hno => hagree fun d1 r1 hp => ?_
+      exact Classical.byContradiction fun hn => hno ⟨d1, r1, hp, hn⟩
+    obtain ⟨d1, r1, hp, hn⟩ := hex
+    have g0 := good_init st nodes d0 f
+    have gc0 := goodC_init st nodes d0 H fs
+    have sim := resolveOnce_sim H st nodes d0 f fs true false (fun _ => rfl) d0 g0 gc0 (by simpa using ho)
+    rw [hp] at sim
+    obtain ⟨gc1, s2, e2, _, _⟩ := sim
+    have hs2 : s2 = false := by
+      cases s2 with
+      | false => rfl
+      | true => exact absurd e2 hn
+    subst hs2
+    obtain ⟨g1, k31⟩ := resolveOnce_good st nodes d0 f true false d0 d1 true r1 g0 (by simpa using ho) hp
+    -- the optimising assembler: one pass, then the confirming pass on `d1`
+    rw [resolveIterativelyN_finish, iterLoop_first, hp] at h
+    simp only [if_true, finish] at h
+    have sim2 := resolveOnce_sim H st nodes d0 f fs false true (fun hh => by cases hh) d1 g1 gc1 (by simpa using k31)
+    cases hq : resolveOnce st nodes false true d1 with
+    | error e => rw [hq] at h; obtain ⟨_, _⟩ := e; cases h
+    | ok x =>
+      obtain ⟨d', s', r2⟩ := x
+      rw [hq] at h sim2
+      cases s' with
+      | false => simp at h
+      | true =>
+        simp only [if_true] at h
+        injection h with h; injection h with _ h; injection h with hd _
+        subst hd
+        have hok1 : NodesOK d1 nodes := pass_establishes_ok st nodes true false d0 d1 true r1 hp hwf
+        have hid : d' = d1 := resolveOnce_stable_id st nodes true d1 d' r2 hq hok1
+        subst hid
+        obtain ⟨_, s2', e2', _, i2'⟩ := sim2
+        have : s2' = true := i2' rfl
+        subst this
+        have hfix : IsFix (st.withStatic false) nodes (d'.unfS H) := ⟨r2, e2'⟩
+        have hfin := from_fix (st.withStatic false) nodes (m + 2) (d'.unfS H) hfix (m + 1) 1 ([] ++ r1) (by omega) (by omega)
+        refine (resolveIterativelyN_final (st.withStatic false) nodes (m + 2) (d0.unfS H) (d'.unfS H)).mpr ?_
+        rw [iterLoop_first, e2]
+        simpa using hfin
+
 end Casm
